@@ -9,6 +9,8 @@ structure St where
   cfg : Flow.Cfg := { p := { chainId := "vchain", initialHeight := 1, genesisTime := 0, proposerAddr := [], key := 1, signerAddr := [] }, qc := {} }
   r : Flow.RunSt := {}
   ok : Bool := false
+  armed : String := ""            -- datastore fault armed for the next operation (`fail what=…`)
+  fault : Option Nat := none      -- a store write of the last production step failed after this many writes: only a restart may follow
   deriving Inhabited
 
 def showFW : FW → String
@@ -30,10 +32,31 @@ def observe (before : Nat) (n : Flow.Node) (ws : List FW) : String :=
   let nb := if newBlocks.isEmpty then "-" else String.intercalate ";" newBlocks
   s!"height={h} new={nb} pend={blockTxs n.prod.store (h + 1)} qd={n.q.disk.length} seen={n.seen.length} w={showWs ws}"
 
-/-- every operation of the node is executed by `Flow.opStep` (the definition the theorems of `Spec/C11` are about) -/
-def step (s : St) (line : String) : St × String :=
+/-- a state built by a definition that is NOT an operation of the histories (datastore faults that break the property) -/
+def faultSt (s : Flow.RunSt) (n : Flow.Node) (ws : List FW) : Flow.RunSt :=
+  { s with n := n, before := diskOf s.n, ws := ws, mempool := if s.drain then [] else s.mempool }
+
+def faultStP (s : Flow.RunSt) (n : Flow.Node) (ws : List FW) : Flow.RunSt :=
+  { s with n := n, before := diskOf s.n, ws := ws }
+
+/-- the node as the durable image after the first `k` writes shows it (what the real node's store answers after a failed write) -/
+def imageNode (r : Flow.RunSt) (k : Nat) : Flow.Node :=
+  let d := Flow.image r k
+  { r.n with prod := { r.n.prod with store := d.store }, q := { mem := r.n.q.mem, disk := d.qdisk }, seen := d.seen }
+
+def firstSave : List FW → Nat → Option Nat
+  | [], _ => none
+  | .st (.saveBlock _ _) :: _, i => some i
+  | _ :: r, i => firstSave r (i + 1)
+
+/-- every operation of the node is executed by `Flow.opStep` (the definition the theorems of `Spec/C11` are about); the
+datastore faults that break the property (`fail what=seen|qdel`) are executed by `Flow.reapSeenFault` / `Flow.produceDelFault` -/
+def step (s0 : St) (line : String) : St × String :=
   let o := parseOp line
-  if o.verb ≠ "reset" && !s.ok then (s, "dead") else
+  if o.verb ≠ "reset" && !s0.ok then (s0, "dead") else
+  if s0.fault.isSome && o.verb ≠ "reset" && o.verb ≠ "restart" && o.verb ≠ "crash" then (s0, "needs-restart") else
+  let armed := s0.armed
+  let s : St := { s0 with armed := "" }
   match o.verb with
   | "reset" =>
     let pa := o.bytes "pa"
@@ -42,6 +65,9 @@ def step (s : St) (line : String) : St × String :=
     match Flow.initSt cfg with
     | none => ({ cfg := cfg }, "start err")
     | some r => ({ cfg := cfg, r := r, ok := true }, "start " ++ observe r.n.prod.store.height r.n [])
+  | "fail" =>
+    let w := o.str "what"
+    if w = "qput" || w = "seen" || w = "qdel" || w = "blk" then ({ s with armed := w }, "ok") else (s, "bad-op")
   | "mempool" =>
     let op : Flow.Op := if o.str "mode" = "drain" then .mempoolDrain (o.list "txs") else .mempool (o.list "txs")
     match Flow.opStep s.cfg s.r op with
@@ -53,21 +79,45 @@ def step (s : St) (line : String) : St × String :=
     let q := (s.r.n.q.disk.map (·.2.length)).foldl (· + ·) 0
     (s, s!"ok inflight={pend + q}")
   | "reap" =>
-    match Flow.opStep s.cfg s.r .reap with
+    if armed = "seen" then
+      let x := reapSeenFault s.cfg s.r.n s.r.mempool
+      let r := faultSt s.r x.1 x.2
+      ({ s with r := r }, "reap " ++ observe s.r.n.prod.store.height r.n r.ws)
+    else
+    match Flow.opStep s.cfg s.r (if armed = "qput" then .reapPutFails else .reap) with
     | some r => ({ s with r := r }, "reap " ++ observe s.r.n.prod.store.height r.n r.ws)
     | none => ({ s with ok := false }, "start err")
   | "produce" =>
     let fail := o.str "exec" = "fail"
-    let op : Flow.Op := if fail then .produceFail else .produce
-    let ex : Producer.ExecResp := if fail then .fail else .ok
+    let clock := o.str "clock"
+    if clock = "back" then
+      -- a clock that stepped backwards: outside the operations of the histories (the batch is dropped: recorded finding)
+      let x := produce s.cfg s.r.n .ok .back
+      let r := faultStP s.r x.1 x.2.1
+      ({ s with r := r }, s!"produce out={Drv.Prod.outClass x.2.2} " ++ observe s.r.n.prod.store.height r.n r.ws)
+    else if !fail && clock ≠ "same" && armed = "qdel" then
+      let x := produceDelFault s.cfg s.r.n
+      let r := faultStP s.r x.1 x.2.1
+      ({ s with r := r }, s!"produce out={Drv.Prod.outClass x.2.2} " ++ observe s.r.n.prod.store.height r.n r.ws)
+    else
+    let op : Flow.Op := if fail then .produceFail else if clock = "same" then .produceSame else .produce
+    let out := if fail then (produce s.cfg s.r.n .fail).2.2 else if clock = "same" then (produce s.cfg s.r.n .ok .same).2.2
+               else (produce s.cfg s.r.n).2.2
     match Flow.opStep s.cfg s.r op with
-    | some r => ({ s with r := r }, s!"produce out={Drv.Prod.outClass (produce s.cfg s.r.n ex).2.2} " ++ observe s.r.n.prod.store.height r.n r.ws)
+    | some r =>
+      match (if !fail && clock ≠ "same" && armed = "blk" then firstSave r.ws 0 else none) with
+      | some k =>
+        -- the block save fails: the step ends with that error after `k` durable writes, and the error ends the node
+        ({ s with r := r, fault := some k }, "produce out=err:store " ++ observe s.r.n.prod.store.height (imageNode r k) (r.ws.take k))
+      | none => ({ s with r := r }, s!"produce out={Drv.Prod.outClass out} " ++ observe s.r.n.prod.store.height r.n r.ws)
     | none => ({ s with ok := false }, "start err")
   | "restart" | "crash" =>
-    let op : Flow.Op := if o.verb = "crash" then .crash (o.nat "keep") else .restart
+    let k0 := if o.verb = "crash" then o.nat "keep" else s.r.ws.length
+    let k := match s.fault with | some f => min k0 f | none => k0
+    let op : Flow.Op := if o.verb = "crash" || s.fault.isSome then .crash k else .restart
     match Flow.opStep s.cfg s.r op with
-    | none => ({ s with ok := false }, "start err")
-    | some r => ({ s with r := r }, "start " ++ observe r.n.prod.store.height r.n [])
+    | none => ({ s with ok := false, fault := none }, "start err")
+    | some r => ({ s with r := r, fault := none }, "start " ++ observe r.n.prod.store.height r.n [])
   | _ => (s, "bad-op")
 
 end Drv.Flw
